@@ -122,6 +122,19 @@ def run_property(pid, tier="quick", seed=0):
                 solver_ms += (info or {}).get("ms", 0)
             else:
                 undecided.append({"obligation": full, "reason": "no verdict for this function in Verus output"})
+        # lemmas over the specification functions (proof fns in template text): each must be verified by Verus; a lemma
+        # that fails says nothing about /repo's code (it is about the specification), so it is undecided, never a violation
+        for lem in o.get("lemmas", []):
+            full = f"{o['unit']}::{lem}"
+            vx_obligations.append(full)
+            info = r["per_fn"].get(full)
+            lem_fail = [f for f in r["failures"] + r["undecided"] if f.get("lemma") == full]
+            if info is not None and info["success"] is True and not lem_fail:
+                discharged.append({"obligation": full, "backend": "verus+z3", "ms": info.get("ms", 0), "kind": "lemma (proof fn over the specification functions)"})
+                solver_ms += info.get("ms", 0)
+            else:
+                undecided.append({"obligation": full, "reason": "lemma not verified: " + "; ".join(f["msg"] for f in lem_fail)[:300],
+                                  "detail": "\n".join(f["text"] for f in lem_fail)[:1500]})
         # canary / vacuity
         can = r.get("canary")
         if can and can["vacuous"]:
@@ -136,7 +149,7 @@ def run_property(pid, tier="quick", seed=0):
                     samples.append({"obligation": it["obligation"], "source": f"{it['file']}:{it['lines'][0]}-{it['lines'][1]}",
                                     "contract": it["contract"][:1200]})
             for x in it["rules"]:
-                if x["rule"] in ("R-LOG", "R-XBODY", "R-PROJ", "R-BOUND"):
+                if x["rule"] in ("R-LOG", "R-XBODY", "R-PROJ", "R-BOUND", "R-LIFT", "R-XEXPR"):
                     rules_fired.append(f"{o['unit']}:{it['name']}:{x['rule']}")
         for (ln, what, line) in r["cheats"]:
             assumptions.add(f"{o['unit']}: {what}: {line}")
@@ -189,7 +202,7 @@ def run_property(pid, tier="quick", seed=0):
             tw = None
             if twin:
                 tw = kx.run_twin(twin)
-                body["twin_result"] = tw
+                body["twin_result"] = {k: v for k, v in (tw or {}).items() if k != "tail"} if tw else None
             if not (tw and tw.get("concrete_test")):
                 suffix = " no-failing-input-found"
         else:
